@@ -15,3 +15,6 @@ func verifEvtSet(kind string, set *produceSet, a int) {}
 
 // verifEvtMsgs reports every message of a slice.
 func verifEvtMsgs(kind string, msgs []*ProducerMessage, a int) {}
+
+// verifBP identifies a broker producer in hook events.
+func verifBP(bp *brokerProducer) int { return 0 }
